@@ -169,8 +169,7 @@ theorem inv_joinBlocked {c : Cfg} {s : State} {t : Nat} (h : Inv c s) (hpc : s.p
   · rename_i u rest htm
     have hmem : ∀ w, w ∈ s.tmp t ↔ w = u ∨ w ∈ rest := by intro w; simp [htm]
     have hdone : s.pc u = Pc.done := by
-      unfold enabled at hen
-      simp only [hpc, htm, beq_iff_eq] at hen
+      simp only [enabled, enabledPc, hpc, Pc.wantsLock, htm, Bool.false_and, Bool.false_eq_true, ↓reduceIte, beq_iff_eq] at hen
       exact hen
     inv_step h
 
